@@ -160,6 +160,17 @@ def cases(rng, tier):
     for a in range(len(deep)):
         b = (a + 1) % len(deep)
         out.append(hist_case("scale-deep-pair", f"deep{a}+deep{b}", [deep[a], deep[b]], pair_progs, None))
+    # 4d. one Symbol node printed at two places of the same handler (the peek opcode 0x64 duplicates the stack ENTRY, not the node):
+    # `put #loop` followed by `go loop` / `go next` / `go previous` / a call of another handler on the SAME node; a generator that
+    # writes into a node while printing it shows at the node's other place in a later generation (seeded change C12-m2 of round 14)
+    for word in (b"loop", b"next", b"previous", b"marker"):
+        for callee in (b"go", b"put", b"play"):
+            nmt = [b"h", b"put", callee, word]
+            code = bytes([0x45, 0x03, 0x64, 0x00, 0x42, 0x01, 0x57, 0x01, 0x42, 0x01, 0x57, 0x02, 0x01])
+            code2 = bytes([0x45, 0x03, 0x64, 0x00, 0x42, 0x01, 0x57, 0x02, 0x42, 0x01, 0x57, 0x01, 0x01])      # the other order
+            for k, cd in enumerate((code, code2)):
+                sc = (L.build_lscr([dict(name=0, args=[], locals=[], code=cd)]), L.build_lnam(nmt))
+                out.append(hist_case("peek-shared-symbol", f"{callee.decode()}-{word.decode()}-{k}", [sc], ["p0,l,l", "p0,l,j,l", "p0,j,l,l", "p0,l,l,j", "p0,l,p0,l"], None, snaps=["p0", "p0,l"]))
     def with_string(nbytes, fill):
         consts = [("s", bytes([fill]) * nbytes), ("i", 5)]
         code = bytes([0x44, 0x00, 0x42, 0x01, 0x57, 0x01, 0x01])
